@@ -3,7 +3,7 @@ from vf import Query
 SRC = ["src/kernel/lmm/System.cpp", "src/kernel/lmm/maxmin.cpp"]
 OPS = ["built", "free_v0", "disable_v1", "repenalize_v1", "enable_v2", "free_v2"]
 META = {
-    "bounds": "system of 2 constraints and 3 variables (v0 on c0, v1 on c0 and c1, v2 on c1), consumption weights 1; set-ups: no limit during the build / c0 limited to 1 "
+    "bounds": "system of 2 constraints and 3 variables (v0 on c0, v1 on c0 and c1, v2 on c1), consumption weights 1 (and a second system with two limited resources where two activities are staged behind two running ones); set-ups: no limit during the build / c0 limited to 1 "
               "(v1 staged) / v2 created disabled; afterwards concurrency limits symbolic in {-1 (unlimited), current use..4}; one modification per query (variable_free, "
               "disable, penalty change, enable); oracle = the conditions of System::check_concurrency plus the no-starvation condition; unwind 8",
     "outside": "larger systems and histories (covered only through the induction over limits), expand of a new variable on two constraints (two mutations: needs path "
@@ -20,7 +20,12 @@ def queries(tier):
         for op, name in enumerate(OPS):
             if op == 4 and setup != 2:
                 continue
-            heavy = setup == 1 and op == 1  # free + re-enable of the staged variable = two mutations after a symbolic branch: 10 GB are not enough in merge mode
-            qs.append(Query(f"setup{setup}_{name}", "C18/conc.cpp", "harness_conc", dict(P_SETUP=setup, P_OP=op), SRC, unwind=8, cap_s=3000 if heavy else 600,
-                            mem_gb=40 if heavy else 12, no_pointer_overflow=True, tiers=("thorough",) if heavy else ("quick", "thorough")))
+            heavy = setup == 1 and op == 1  # free + re-enable of the staged variable = several mutations after a symbolic branch: 40 GB are not enough in
+            # merge mode, path-by-path exploration (--paths lifo) decides it in seconds
+            qs.append(Query(f"setup{setup}_{name}", "C18/conc.cpp", "harness_conc", dict(P_SETUP=setup, P_OP=op), SRC, unwind=8, cap_s=900,
+                            mem_gb=12, no_pointer_overflow=True, paths=heavy))
+    for op, name in ((1, "free_x0"), (2, "disable_x0"), (5, "free_y"), (0, "built")):
+        heavy = op in (1, 2)  # release of a slot followed by the wake-up scan: several mutations after symbolic branches -> path-by-path exploration
+        qs.append(Query(f"setup3_{name}", "C18/conc.cpp", "harness_conc", dict(P_SETUP=3, P_OP=op), SRC, unwind=8, cap_s=900, mem_gb=16, no_pointer_overflow=True,
+                        paths=heavy))
     return qs
